@@ -62,6 +62,17 @@ class Env(object):
         conf_b['service']['idp']['endpoints'] = {'single_sign_on_service': [('https://idp-b.example.net/sso', BINDING_HTTP_REDIRECT)]}
         self.idp_b_md = str(entity_descriptor(IdPConfig().load(conf_b, metadata_construction=True)))
         self.idp = Server(config=IdPConfig().load(idp_conf({'inline': [self.sp_md]})))
+        self._strict = None
+
+        def strict_idp():
+            # the same IdP, configured to accept signed AuthnRequests only
+            if self._strict is None:
+                conf = idp_conf({'inline': [self.sp_md]})
+                conf['service']['idp']['want_authn_requests_signed'] = True
+                conf['service']['idp']['subject_data'] = os.path.join(tmp, 'subject_strict.db')
+                self._strict = Server(config=IdPConfig().load(conf))
+            return self._strict
+        self.strict_idp = strict_idp
         self._sps = {}
 
         def sp_for(pair, want_resp, want_ass, instance=None, **extra):
@@ -79,10 +90,11 @@ class Env(object):
         return ''.join(l for l in txt.splitlines() if l and not l.startswith('-----'))
 
     def __exit__(self, *exc):
-        try:
-            self.idp.ident.close()
-        except Exception:
-            pass
+        for srv in (self.idp, self._strict):
+            try:
+                srv.ident.close()
+            except Exception:
+                pass
         if self.saved_py is None:
             os.environ.pop('XMLSEC1_STANDIN_PYTHON', None)
         else:
